@@ -26,7 +26,7 @@ TIERS = {
     "quick": {"shards": 8, "budget_s": 45},
     "thorough": {"shards": 16, "budget_s": 480},
 }
-MIN_EVENTS = {"quick": 100, "thorough": 1500}
+MIN_EVENTS = {"quick": 300, "thorough": 1500}
 DECIDING = {"solve_steady"}
 RULE = (
     "families L (linear, flat and non-flat incl. unit root with drift), N (nonlinear, flat, steady state known by construction, "
@@ -363,7 +363,7 @@ def replay(c, case):
 def shard(c):
     install()
     rng = c.rng
-    n = c.scale(260, 6000)
+    n = c.scale(520, 6000)
     for i in range(n):
         if c.out_of_time():
             break
